@@ -4380,3 +4380,9 @@ def slice_copy_from_slice(m, mt, args, tys, dty):
     for i in range(len(src)):
         dst.base[dst.lo + i] = copy_val(src.get(i))
     return Agg('tuple', '()', [])
+
+
+@summary(r'core::num::<impl (%s)>::(max_value|min_value)' % INT)
+def int_max_min_value(m, mt, args, tys, dty):
+    lo, hi = INT_RANGE[mt.group(1)]
+    return hi if mt.group(2) == 'max_value' else lo
